@@ -124,7 +124,7 @@ CLAIMS = {
         "(nd_eq_leastModel, nd_runs_agree) and every schedule of the parallel engine is one (par_is_nd). Tied by ascent_par! twins of generated "
         "relational / lattice / aggregation programs, with and without #![inter_rule_parallelism], in pools of 1..16 threads under seeded perturbation of every "
         "concurrent index insert (hook), vs the serial model and the naive oracle. PARTIAL: lattices and aggregation in parallel mode are covered by the tie "
-        "only (finding F5, aggregates over a lattice in parallel mode, was repaired by fix 058163a and its witness must pass); deadlock-freedom, DashMap/boxcar/RwLock/Mutex atomicity, rayon completion and memory ordering are assumptions, exercised not proved. Physical level (Props/C02Phys.lean over Model/EnginePhysPar.lean): the generated ascent_par! code over its concurrent hash indices - frozen / unfrozen protocol with panics, per-thread CRelNoIndex, parallel update_indices, head updates of all workers interleaved - never panics and computes exactly the least model for EVERY schedule and pool size (runPhysPar_eq_leastModel); the relational cases of the tie are compared with this model (eng runpp).",
+        "only (finding F5, aggregates over a lattice in parallel mode, was repaired by fix 058163a and its witness must pass); deadlock-freedom, DashMap/boxcar/RwLock/Mutex atomicity, rayon completion and memory ordering are assumptions, exercised not proved. Physical level (Props/C02Phys.lean over Model/EnginePhysPar.lean): the generated ascent_par! code over its concurrent hash indices - frozen / unfrozen protocol with panics, per-thread CRelNoIndex, parallel update_indices, head updates of all workers interleaved - never panics and computes exactly the least model for EVERY schedule and pool size (runPhysPar_eq_leastModel); the relational cases of the tie are compared with this model (eng runpp). Props/C02PhysLat.lean: ascent_par! WITH lattice relations over its concurrent indices - for every schedule, pool and rule-scheduling mode no panic and the least fixed point (runPhysParLat_spec; the flag law of join_mut is a hypothesis, shown necessary by runPhysParLat_needs_flag_law); tied by `eng runppl`.",
    design_ref="DESIGN.md §8 C02, §13", note=ENGINE_NOTE),
  "C20": dict(
    engine="tie-B-engine",
@@ -231,7 +231,7 @@ CLAIMS = {
         "nothing (rerun_idempotent: row vectors literally unchanged) and a re-run after pushing facts into any relations equals the least model of the union "
         "of all inputs (monotone_rerun, via lfp(lfp I ∪ J) = lfp(I ∪ J)). For EVERY stratified program with aggregation / negation: the stratified restart theorem "
         "(restart_agg: a completed run from any value between the inputs and the stratified model ends in the stratified model) and its corollary rerun_idempotent_agg "
-        "(Props/C13Agg.lean; aggregators insensitive to input order, proved for the library ones: std_aggPermInvariant). Tied by driving compiled programs through generated histories of run/push/dump. Physical level (Props/C13Phys.lean): rerun_idempotent_phys, monotone_rerun_phys over the generated code's hash indices (Model/EnginePhys.lean). Props/C13PhysAgg.lean: over the physical indices also for stratified programs with aggregation / negation (restart_phys_agg, rerun_idempotent_phys_agg).",
+        "(Props/C13Agg.lean; aggregators insensitive to input order, proved for the library ones: std_aggPermInvariant). Tied by driving compiled programs through generated histories of run/push/dump. Physical level (Props/C13Phys.lean): rerun_idempotent_phys, monotone_rerun_phys over the generated code's hash indices (Model/EnginePhys.lean). Props/C13PhysAgg.lean: over the physical indices also for stratified programs with aggregation / negation (restart_phys_agg, rerun_idempotent_phys_agg). Props/C13PhysLat.lean: the physical engine with lattices from any legal value (runPhysLat_from) and idempotence of run() (rerun_idempotent_physLat).",
    design_ref="DESIGN.md §8 C13", note=ENGINE_NOTE + " Parallel re-runs are tied (compiled histories), not proved; F2 and F4 are fixed."),
  "C14": dict(
    engine="tie-B-engine",
@@ -240,7 +240,7 @@ CLAIMS = {
         "run_timeout=false leaves only derivable tuples, keeps every input and a well-formed value (timeout_false_sound); after any number of interruptions "
         "at any points a completing call leaves exactly the least model of the original inputs (resume_complete); the same for every stratified program with "
         "aggregation / negation relative to an uninterrupted reference run (timeout_false_sound_agg, resume_complete_agg, Props/C13Agg.lean). Tied by compiled programs with "
-        "#![generate_run_timeout] under the virtual-clock hook, for EVERY crash point k of every case plus repeated interruptions. Physical level (Props/C13Phys.lean over Model/EnginePhysTimeout.lean): timeout_sound_phys, timeout_true_complete_phys, resume_complete_phys (any number of interruptions: the indices dropped by early returns are rebuilt). Props/C13PhysAgg.lean: over the physical indices also for stratified programs with aggregation / negation, relative to an uninterrupted reference run (timeout_false_sound_phys_agg, timeout_true_complete_phys_agg, resume_complete_phys_agg).",
+        "#![generate_run_timeout] under the virtual-clock hook, for EVERY crash point k of every case plus repeated interruptions. Physical level (Props/C13Phys.lean over Model/EnginePhysTimeout.lean): timeout_sound_phys, timeout_true_complete_phys, resume_complete_phys (any number of interruptions: the indices dropped by early returns are rebuilt). Props/C13PhysAgg.lean: over the physical indices also for stratified programs with aggregation / negation, relative to an uninterrupted reference run (timeout_false_sound_phys_agg, timeout_true_complete_phys_agg, resume_complete_phys_agg). Props/C13PhysLat.lean: run_timeout of the physical engine with lattices (timeout_sound_physLat, resume_complete_physLat); tie `eng runtopl`.",
    design_ref="DESIGN.md §8 C14", note=ENGINE_NOTE + " The wall clock is replaced by the hook (ascent::internal::verif); lattice programs: Props/C13L."),
  "C19": dict(
    engine="tie-C-ds",
